@@ -128,6 +128,7 @@ def run_new(rows):  # noqa: ANN001
     parent = {int(k): (int(v.parent) if v.parent >= 0 else -1) for k, v in nodes.items() if k >= 0}
     depth = {int(k): int(v.depth) for k, v in nodes.items() if k >= 0}
     children = {(int(k) if k >= 0 else -1): [int(c) for c in v.children] for k, v in nodes.items()}
+    LAST["csg"] = csg
     return parent, depth, children
 
 
@@ -140,10 +141,83 @@ def run_old(rows):  # noqa: ANN001
     parent = {int(k): int(v.parent) for k, v in nodes.items() if k >= 0}
     depth = {int(k): int(v.depth) for k, v in nodes.items() if k >= 0}
     children = {int(k): [int(c) for c in v.children] for k, v in nodes.items()}
+    LAST["csg"] = csg
     return parent, depth, children
 
 
 BUILDERS = {"new": run_new, "old": run_old}
+LAST: Dict[str, Any] = {"csg": None}
+
+
+def accessors(csg, rows, parent, depth, who: str, res: core.CaseResult) -> None:  # noqa: ANN001
+    """The call stack as a user walks it: get_parent / get_children / get_path_to_root / get_paths_to_leaves / get_leaf_nodes /
+    get_depth / dfs_traverse must all describe the same tree as the node map that `judge` compares with the oracle
+    (every event exactly once, depth = number of ancestors)."""
+    ids = [r[0] for r in rows]
+    start = {r[0]: r[1] for r in rows}
+    kids: Dict[int, List[int]] = {}
+    for i in ids:
+        kids.setdefault(parent.get(i, -1), []).append(i)
+    bad: List[str] = []
+    for i in ids:
+        if i not in parent:
+            continue
+        gp = int(csg.get_parent(i))
+        if (gp if gp >= 0 else -1) != parent[i]:
+            bad.append(f"get_parent({i})={gp}, node map says {parent[i]}")
+        gc = sorted(int(c) for c in csg.get_children(i))
+        if gc != sorted(kids.get(i, [])):
+            bad.append(f"get_children({i})={gc}, events whose parent is {i}: {sorted(kids.get(i, []))}")
+        path = [int(x) for x in csg.get_path_to_root(i)]
+        exp_path = [i]
+        while parent.get(exp_path[-1], -1) >= 0:
+            exp_path.append(parent[exp_path[-1]])
+        if path[:len(exp_path)] != exp_path or any(x >= 0 for x in path[len(exp_path):]) or len(path) != len(exp_path) + 1:
+            bad.append(f"get_path_to_root({i})={path}, ancestors are {exp_path} (+ the thread root)")
+        elif len(exp_path) - 1 != depth.get(i, -99):
+            bad.append(f"get_path_to_root({i}) has {len(exp_path) - 1} ancestors, depth says {depth.get(i)}")
+        leaves = sorted(int(x) for x in csg.get_leaf_nodes(i))
+        sub, stack = [], [i]
+        while stack:
+            x = stack.pop()
+            sub.append(x)
+            stack.extend(kids.get(x, []))
+        exp_leaves = sorted(x for x in sub if not kids.get(x))
+        if leaves != exp_leaves:
+            bad.append(f"get_leaf_nodes({i})={leaves[:8]}, childless descendants are {exp_leaves[:8]}")
+        res.counters["accessor_nodes_judged"] += 1
+    # depth-first traversal: every node entered and left exactly once, parent entered before and left after its children,
+    # siblings in start-time order
+    entered: List[int] = []
+    left: List[int] = []
+    csg.dfs_traverse(lambda nid, node: entered.append(int(nid)), lambda nid, node: left.append(int(nid)))
+    ent = [x for x in entered if x >= 0]
+    if sorted(ent) != sorted(i for i in ids if i in parent) or sorted(x for x in left if x >= 0) != sorted(ent):
+        bad.append(f"dfs_traverse entered {len(ent)} / left {len([x for x in left if x >= 0])} nodes, the call stack has {len(ids)} (each exactly once)")
+    else:
+        pos_in = {x: k for k, x in enumerate(ent)}
+        pos_out = {x: k for k, x in enumerate(x for x in left if x >= 0)}
+        for i in ent:
+            p = parent.get(i, -1)
+            if p >= 0 and not (pos_in[p] < pos_in[i] and pos_out[p] > pos_out[i]):
+                bad.append(f"dfs_traverse: event {i} is not visited inside its parent {p}")
+                break
+        for p, cs in kids.items():
+            order = sorted(cs, key=lambda x: pos_in.get(x, 0))
+            if any(start[a] > start[b] for a, b in zip(order, order[1:])):
+                bad.append(f"dfs_traverse visits the children of {p} out of start-time order: {order}")
+                break
+    try:
+        ds = csg.get_depth()
+        got = {int(k): int(v) for k, v in ds.items() if int(k) >= 0}
+        dd = {i: (got.get(i), depth[i]) for i in ids if i in depth and got.get(i) != depth[i]}
+        if dd:
+            bad.append(f"get_depth() differs from the node map (reported, node map): {dict(list(dd.items())[:4])}")
+    except KeyError:
+        pass                                        # new builder without saved stack columns: the series is indexed by row label
+    if bad:
+        res.bad(f"accessors:{who}", f"{who}: " + "; ".join(bad[:4]) + f"  rows={rows}", spans=rows, builder=who,
+                wrong_ids=[])
 
 
 def gen_case(rnd, tier: str, i: Any) -> Dict[str, Any]:
@@ -175,6 +249,11 @@ def _run_builder(who: str, fn, rows: List[List[int]], res: core.CaseResult, do_m
         return
     parent, depth, children = out
     judge(rows, parent, depth, children, who, res)
+    if not res.violations and LAST["csg"] is not None:
+        ok3, _ = drv.guard(res, f"CallStackGraph[{who}] accessors", accessors, LAST["csg"], rows, parent, depth, who, res)
+        if not ok3:
+            res.violations[-1].witness.update(spans=rows, builder=who)
+    LAST["csg"] = None
     if do_meta and any(r[1] == r[2] for r in rows):
         # metamorphic: removing the zero-duration events leaves every positive event's parent unchanged
         rows2 = [r for r in rows if r[2] > r[1]]
